@@ -35,6 +35,9 @@ type Outcome struct {
 	Events    sdk.Events
 	// FailedAt is the index of the message that failed (when !OK).
 	FailedAt int
+	// GasUsed: what the transaction's gas meter counted (store reads/writes of the handlers; part of the result a
+	// chain commits to). Not meaningful after a panic.
+	GasUsed uint64
 }
 
 // Class is "ok", "err" or "panic".
@@ -114,7 +117,9 @@ func (e *Env) DeliverBytes(ctx sdk.Context, txb []byte, h Handler, msgs ...sdk.M
 	defer func() {
 		if r := recover(); r != nil {
 			out = Outcome{Panic: true, PanicText: fmt.Sprint(r), Stack: string(debug.Stack()), FailedAt: idx}
+			return
 		}
+		out.GasUsed = txCtx.GasMeter().GasConsumed()
 	}()
 	for i, m := range msgs {
 		idx = i
@@ -225,7 +230,7 @@ func eventsString(evs sdk.Events) string {
 
 func (r *ResultLog) tx(o Outcome) {
 	var b strings.Builder
-	fmt.Fprintf(&b, "tx|%s|%s|%d|", o.Class(), o.Codespace, o.Code)
+	fmt.Fprintf(&b, "tx|%s|%s|%d|gas=%d|", o.Class(), o.Codespace, o.Code, o.GasUsed)
 	if o.OK {
 		for _, resp := range o.Responses {
 			if resp != nil {
